@@ -160,6 +160,11 @@ class Server(object):
 
         self._check_close_code(reply)
 
+        if err is not None:
+            # The reader gave up in the middle of the message. What is left
+            # of it on the wire must not be read as commands.
+            raise StopIteration()
+
     def _encrypt_session(self):
         with Timeout(self.command_timeout):
             encrypted = self.io.encrypt_socket_server(self.context)
